@@ -30,12 +30,13 @@ GFill   == Env("C06_FILL", "0") = "1"           \* sim: addition-heavy histories
 GCls    == Env("C06_CLASS", "c")
 
 GH == 16
-\* op names n01..n18 with chosen home slots: clusters that collide, one cluster on the home slot of
-\* (listfile) (9) and one next to (attributes) (14); the first three share slot 4 / 5
+\* op names with chosen home slots: clusters that collide, one cluster on the home slot of (listfile)
+\* (9) and one next to (attributes) (14); a, b, d (and h, i) live on the LAST slot (15) and c on slot 0, so
+\* the probe chains of the exhaustively enumerated names wrap around the end of the table
 AllNames == <<"a", "b", "c", "d", "e", "f", "g", "h", "i", "j", "k", "l", "m", "n", "o", "p", "q", "r">>
-HomeSeq  == << 4,   4,   5,   4,   9,   9,   14,  15,  15,  0,   0,   1,   8,   8,   12,  3,   4,   10>>
+HomeSeq  == << 15,  15,  0,   15,  9,   9,   14,  15,  15,  0,   0,   1,   8,   8,   12,  3,   4,   10>>
 OpNames  == {AllNames[j] : j \in 1..GNames}
-PadHome  == 0
+PadHome  == 7
 GUNames  == OpNames \cup {"pad"}
 GHome    == [x \in GUNames \cup {LF, AT} |->
                IF x = LF THEN 59481 % GH            \* low half of HashString("(listfile)", TABLE_OFFSET) (MC_MpqCrypto V1)
